@@ -1,5 +1,7 @@
 package revocation
 
+import "github.com/privacybydesign/gabi/big"
+
 func init() {
 	vpHarnesses["vpC10_O1"] = vpC10_O1
 }
@@ -76,7 +78,10 @@ func vpC10_O3() {
 	upd := vpTransported(h.update(0, last))
 	n = last
 	k := vpChoose("k", n+1) // the event the corruption targets
-	corrupt := vpChoose("corruption", 14)
+	corrupt := vpParam("corruption", -1) // (a single family can be selected for debugging)
+	if corrupt < 0 {
+		corrupt = vpChoose("corruption", 15)
+	}
 	switch corrupt {
 	case 0: // no corruption
 	case 1: // another revoked value
@@ -122,6 +127,15 @@ func vpC10_O3() {
 		sacc, err := h.accs[n-1].Sign(h.sk)
 		vpAssume(err == nil)
 		upd.SignedAccumulator = &SignedAccumulator{Data: sacc.Data, PKCounter: sacc.PKCounter}
+	case 14: // re-framing (a double corruption): the first event's parent hash swallows the leading byte of its
+		// value - hash input Index || ParentHash || E.Bytes() stays the same byte string
+		// (the update starts at the first revocation event, whose parent hash is checked against nothing)
+		vpAssume(k == 0 && last >= 1)
+		upd = vpTransported(h.update(1, last))
+		eb := upd.Events[0].E.Bytes()
+		vpAssume(len(eb) == 2 && eb[1] != 0)
+		upd.Events[0].ParentHash = append(append(Hash{}, upd.Events[0].ParentHash...), eb[0])
+		upd.Events[0].E = new(big.Int).SetBytes(eb[1:])
 	case 13: // inserted bogus event at the end
 		bogus := &Event{Index: upd.Events[n].Index + 1, E: vpSmallPrime("e_bogus"), ParentHash: upd.Events[n].hash()}
 		upd.Events = append(upd.Events, bogus)
@@ -152,6 +166,25 @@ func vpC10_O4() {
 	h := vpBuildHistory(n)
 	i0 := vpChoose("i0", n+1)
 	upd := h.update(i0, n)
+	if vpBool("updateWithoutEvents") {
+		// an update message of length 0: only the signed accumulator (verified by the receiver)
+		sacc, err := h.accs[n].Sign(h.sk)
+		vpAssume(err == nil)
+		upd = &Update{SignedAccumulator: sacc}
+		j0, j1 := vpChoose("j0", n+1), vpChoose("j1", n+1)
+		vpAssume(j0 <= j1)
+		evs := make([]*Event, 0, n+1)
+		for j := j0; j <= j1; j++ {
+			evs = append(evs, vpCopyEvent(h.events[j]))
+		}
+		err = upd.Prepend(NewEventList(evs...))
+		if err == nil {
+			vpAssert("accepted prepend yields a chain that verifies", NewEventList(upd.Events...).Verify(h.accs[n]) == nil)
+		} else {
+			vpAssert("failed prepend leaves the update unchanged", len(upd.Events) == 0)
+		}
+		return
+	}
 	j0, j1 := vpChoose("j0", n+1), vpChoose("j1", n+1)
 	vpAssume(j0 <= j1)
 	evs := make([]*Event, 0, n+1)
